@@ -78,6 +78,16 @@ theorem C04_written (t : OpTable) (h : List Ev) : (run t h).written = writesOf h
   have := Disasm.foldl_written t h {}
   simpa [run] using this
 
+/-- `C04_exhausted` in terms of the caller's own events: polled to exhaustion, the
+instructions emitted are the linear sweep of the concatenated write payloads — a
+right-hand side in which neither a chunk boundary nor a poll occurs. -/
+theorem C04_exhausted_history (t : OpTable) (hs : SizeOK t) (h : List Ev) (hb : BytesOK h)
+    (hex : (next t (run t h).dis).1 = Next.none) :
+    (run t h).emitted = (decodeAll t (writesOf h)).1 := by
+  have a := (C04_exhausted t hs h hb hex).1
+  rw [C04_written] at a
+  exact a
+
 /-- The hypothesis `SizeOK` holds for the regenerated Cancun table (the fork the
 disassembler uses). -/
 theorem sizeOK_cancun : SizeOK Gen.cancun := Disasm.sizeOK_of_tableOK Ops.cancun_tableOK
